@@ -10,10 +10,13 @@ package main
 // completed (load failure, unresolved anchor, instance floor).
 
 import (
+	"bytes"
 	"flag"
 	"fmt"
 	"os"
+	"os/exec"
 	"path/filepath"
+	"runtime/debug"
 	"sort"
 	"strconv"
 	"strings"
@@ -48,6 +51,13 @@ func main() {
 	}
 	switch os.Args[1] {
 	case "check":
+		if os.Getenv("GOATVERIF_CHILD") == "" && os.Getenv("GOATVERIF_DEBUG") == "" {
+			os.Exit(supervise(os.Args[2:]))
+		}
+		debug.SetMaxStack(512 << 20)
+		if os.Getenv("GOATVERIF_TEST_CRASH") != "" {
+			crashForTest(0) // self-test of the supervisor
+		}
 		os.Exit(cmdCheck(os.Args[2:]))
 	case "ssa":
 		// debug: goatverif ssa <repo> <relpkg> <funcname-substring>
@@ -143,6 +153,72 @@ func runOnce(def *PropDef, lo LoadOpts, known map[string]KFEntry) *runResult {
 	return rr
 }
 
+func crashForTest(n int) int { return crashForTest(n+1) + 1 }
+
+// supervise runs the check in a child process, so that a crash of the analysis
+// that cannot be recovered in-process (stack exhaustion, out of memory, a signal)
+// is reported as "cannot decide" - a violation - instead of an unexplained exit.
+func supervise(args []string) int {
+	self, err := os.Executable()
+	if err != nil {
+		return cmdCheck(args)
+	}
+	cmd := exec.Command(self, append([]string{"check"}, args...)...)
+	cmd.Env = append(os.Environ(), "GOATVERIF_CHILD=1")
+	cmd.Stdout = os.Stdout
+	var errBuf bytes.Buffer
+	cmd.Stderr = &errBuf
+	runErr := cmd.Run()
+	code := 0
+	if runErr != nil {
+		code = -1
+		if ee, ok := runErr.(*exec.ExitError); ok {
+			code = ee.ExitCode()
+		}
+	}
+	if code == 0 || code == 1 || code == 3 {
+		os.Stderr.Write(errBuf.Bytes())
+		return code
+	}
+	// crashed
+	fs := flag.NewFlagSet("check", flag.ContinueOnError)
+	fs.SetOutput(new(bytes.Buffer))
+	prop := fs.String("p", "", "")
+	tier := fs.String("tier", envOr("VERIF_TIER", "quick"), "")
+	repo := fs.String("repo", "/repo", "")
+	verif := fs.String("verif", "/verif", "")
+	fs.String("overlay", "", "")
+	noEvidence := fs.Bool("no-evidence", false, "")
+	fs.Bool("v", false, "")
+	fs.Parse(args)
+	lines := strings.Split(errBuf.String(), "\n")
+	if len(lines) > 25 {
+		lines = lines[:25]
+	}
+	fmt.Fprintln(os.Stderr, strings.Join(lines, "\n"))
+	first := ""
+	for _, l := range lines {
+		if strings.TrimSpace(l) != "" {
+			first = strings.TrimSpace(l)
+			if strings.HasPrefix(first, "fatal error") || strings.HasPrefix(first, "panic") {
+				break
+			}
+		}
+	}
+	ob := Obligation{Property: *prop, Rule: *prop + ".engine", Construct: "analysis process", Status: "violated",
+		Detail: fmt.Sprintf("the checker crashed (exit %d: %s) — cannot decide; nothing is certified", code, first)}
+	fmt.Printf("  violated: %s @ %s %s — %s\n", ob.Rule, ob.Construct, ob.Pos, ob.Detail)
+	reportPath := filepath.Join(*verif, "reports", fmt.Sprintf("%s-%s.json", *prop, *tier))
+	if def := registry[*prop]; def != nil && !*noEvidence {
+		writeJSON(reportPath, Report{Property: *prop, Tier: *tier, When: nowStamp(), Violations: []Obligation{ob}})
+		seed, _ := strconv.Atoi(os.Getenv("VERIF_SEED"))
+		ev := buildEvidence(def, *tier, seed, []*runResult{{err: fmt.Errorf("analysis process crashed (exit %d)", code)}}, []Obligation{ob}, nil, nil, 0, *repo)
+		writeJSON(filepath.Join(*verif, "evidence", *prop+".json"), ev)
+	}
+	fmt.Printf("VIOLATION property=%s replay=%s\n", *prop, reportPath)
+	return 1
+}
+
 func cmdCheck(args []string) int {
 	fs := flag.NewFlagSet("check", flag.ExitOnError)
 	prop := fs.String("p", "", "property id")
@@ -156,7 +232,7 @@ func cmdCheck(args []string) int {
 	def := registry[*prop]
 	if def == nil {
 		fmt.Fprintf(os.Stderr, "unknown property %q\n", *prop)
-		return 2
+		return 3
 	}
 	if *tier != "quick" && *tier != "thorough" {
 		*tier = "quick"
@@ -179,7 +255,7 @@ func cmdCheck(args []string) int {
 			b, err := os.ReadFile(parts[1])
 			if err != nil {
 				fmt.Printf("overlay: %v\n", err)
-				return 2
+				return 3
 			}
 			lo.Overlay[parts[0]] = b
 		}
@@ -209,7 +285,7 @@ func cmdCheck(args []string) int {
 	for _, rr := range results {
 		if rr.err != nil {
 			loadFailed = true
-			violations = append(violations, Obligation{Property: def.ID, Rule: def.ID + ".load", Construct: "load[" + strings.Join(append(rr.cfgEnv()), " ") + "]", Status: "violated",
+			violations = append(violations, Obligation{Property: def.ID, Rule: def.ID + ".load", Construct: "load[" + strings.Join(rr.cfgEnv(), " ") + "]", Status: "violated",
 				Detail: "cannot decide: " + rr.err.Error()})
 			continue
 		}
